@@ -24,10 +24,11 @@ CLAIMED["C03"] = ("Theorems: every successful fixed-input / fixed-output swap of
 CLAIMED["C04"] = ("Theorems: add uses the largest at-ratio deposit that fits, mints min of the two floors, refunds the rest; remove pays the exact floors or fails; "
     "first deposit locks MINIMUM_LIQUIDITY in the pair and LP supply can never fall below it afterwards (step_S_floor); initial-adder gate. "
     "Tied to dex/pair by differential replay + pro-rata monitors.", "7 C04", "Coq characterisation theorems + inductive floor invariant + correspondence")
-CLAIMED["C05"] = ("Inductive invariants of the farm model for every reachable state: reserve = generated - paid, reward balance = reserve + donations, "
-    "farming tokens held = farm-token supply = sum of outstanding positions, DSC*(reserve - boosted pools) >= un-floored claimable base rewards of all positions "
-    "(solvency, uses the ceil-merge lemma), hence no legitimate claim/exit can underflow a reward counter. Boosted payouts enter as inputs bounded by the pools (C11 bounds them per week). "
-    "Tied to dex/farm by differential replay; the repaired defects F1/F4 stay as regression histories.", "7 C05", "Coq inductive invariants (accounting, ledger, solvency) + correspondence")
+CLAIMED["C05"] = ("Inductive invariants for every reachable state of three models: dex/farm (Model/Farm.v), farm-with-locked-rewards (Model/FarmLocked.v, refines the farm model; rewards leave only as locked tokens) and farm-staking at position level (Model/StakingPos.v): "
+    "reserve = generated - paid, reward balance = reserve + donations (minting farm), farming tokens held = farm-token supply = sum of outstanding positions, DSC*(reserve - boosted pools) >= un-floored claimable base rewards of all positions "
+    "(solvency, uses the ceil-merge lemma) and its floor form, principal backed, no legitimate operation fails on a negative counter (C05_staking_d_no_spurious_failure). "
+    "In the CLOSED model of dex/farm (Props/C05_closed.v: Farm x Boosted, the boosted payout is computed, not an input) the farm's boosted pool equals the sum of the weekly pools + undistributed, the reserve covers claims plus those actual pools, and the computed payout is always payable. "
+    "Tied to the three real contracts by differential replay; the repaired defects F1/F4 stay as regression histories.", "22 C05", "Coq inductive invariants (accounting, ledger, solvency, refinement between models) + correspondence")
 CLAIMED["C06"] = ("Theorems: settlement grows the index by exactly floor((rate*blocks - boosted cut)*DSC/supply) and never otherwise; index monotone; claim pays floor(amount*(RPS_now-RPS_entry)/DSC) + boosted; "
     "a new position records the index settled to its own block (not retroactive); base paid <= base generated over every history; admin changes settle with the old parameters first.", "7 C06",
     "Coq characterisation theorems + reachability invariant + correspondence")
@@ -78,11 +79,11 @@ CLAIMED["C16"] = ("52 theorems on the proxy_dex model (pair, farms and energy fa
     "base minted on entry = base + locked burned on exit; energy drops by exactly burned*(unlock - now) incl. expired locks; into_part = floor share, aborts on zero, parts never sum past the whole. "
     "Tied to the real pair + two farm-with-locked-rewards + energy factory + proxy_dex by differential replay.", "52 C16",
     "Coq inductive invariant + characterisation theorems relative to stated callee laws + correspondence")
-CLAIMED["C11"] = ("26 theorems on the boosted-yields model (farm-boosted-yields on top of the generic weekly-rewards-splitting model; farm-level facts - emission, supply, user position, energy entry - are operation inputs read from the real farm): "
+CLAIMED["C11"] = ("33 theorems: 26 on the boosted-yields model (farm-boosted-yields on top of the generic weekly-rewards-splitting model; farm-level facts - emission, supply, user position, energy entry - are operation inputs read from the real farm): "
     "invariant with ghost ledger for every reachable state; per processed week the payment is exactly min(maxF*R*f/F, (R*cE*e/E + R*cF*f/F)/(cE+cF)) with floor divisions and cross-multiplied bounds against the rational formula, 0 below the minimums / with E, F or R = 0; "
     "claim range = last four completed weeks from the progress week on; (user, week) pairs pairwise distinct over any history; per week cuts = accumulated + remaining + paid + swept, paid <= cuts, frozen total never changes; slice = full*pct/10000 into the running week only; "
-    "collectUndistributed sweeps exactly weeks (last, current-5] once, never inside the window, admin only; every leftover ends in undistributed; 5-slot factor register refines week -> factors of the last accepted call; every accepted configuration has cE + cF > 0 and the formula never divides by zero in any reachable state (after the F7 repair); conservation. "
-    "Tied to dex/farm + energy-factory-mock by differential replay of all boosted views; monitors recompute the formula with the user's position BEFORE the operation.", "26 C11",
+    "collectUndistributed sweeps exactly weeks (last, current-5] once, never inside the window, admin only; every leftover ends in undistributed; 5-slot factor register refines week -> factors of the last accepted call; every accepted configuration has cE + cF > 0 and the formula never divides by zero in any reachable state (after the F7 repair); conservation; and 7 on the CLOSED dex/farm model (Props/C11_closed.v): for every completed week paid + the unguarded amounts of all still-pending users <= the pool (C11_no_underflow), so the guard on remaining(week) never fires and no endpoint aborts in the module half. "
+    "Tied to dex/farm + energy-factory-mock by differential replay of all boosted views; monitors recompute the formula with the user's position BEFORE the operation.", "33 C11",
     "Coq inductive invariant with ghost ledger + characterisation/refinement theorems + correspondence")
 CLAIMED["C20"] = ("21 theorems: each view defined on the existing models (pair, farm, staking, penalty, price discovery) equals what the corresponding operation delivers in the same state, for all states satisfying the model invariants and all arguments: "
     "getAmountOut/getAmountIn vs both swap modes (quote = delivered / charged, refund = max - quote; view refuses => swap fails; liveness without fee destinations), getTokensForGivenPosition vs removeLiquidity (iff characterisation of the extra guards), "
